@@ -64,7 +64,7 @@ theorem addrs_allocate (segs : List Seg) (n : Nat) : addrs (allocate segs n) = (
       · simp only [h, if_false]
         rw [List.take_append]
         simp only [length_segAddrs]
-        rw [List.take_of_length_le (by simp; omega)]
+        rw [List.take_of_length_le (l := segAddrs s) (by simp; omega)]
 
 theorem addrs_markUsed (segs : List Seg) (n : Nat) : addrs (markUsedSegs segs n) = (addrs segs).drop n := by
   induction segs generalizing n with
@@ -78,7 +78,7 @@ theorem addrs_markUsed (segs : List Seg) (n : Nat) : addrs (markUsedSegs segs n)
     · simp only [h, if_false, addrs, ih]
       rw [List.drop_append]
       simp only [length_segAddrs]
-      rw [List.drop_of_length_le (by simp; omega)]
+      rw [List.drop_of_length_le (l := segAddrs s) (by simp; omega)]
       simp
 
 theorem splitSegs_spec (segs : List Seg) (k : Nat) :
@@ -120,10 +120,10 @@ theorem splitSegs_spec (segs : List Seg) (k : Nat) :
         · simp only [addrs, ha]
           rw [List.take_append]
           simp only [length_segAddrs]
-          rw [List.take_of_length_le (by simp; omega)]
+          rw [List.take_of_length_le (l := segAddrs s) (by simp; omega)]
         · rw [ho, List.drop_append]
           simp only [length_segAddrs]
-          rw [List.drop_of_length_le (by simp; omega)]
+          rw [List.drop_of_length_le (l := segAddrs s) (by simp; omega)]
           simp
       · intro hk
         simp [ih2 (by omega)]
